@@ -191,7 +191,7 @@ Section AB.
     if negb (s_running st) then (Aborted st, st)
     else
       let remaining := Z.of_nat rem in
-      let e := tfind (s_tbl st) (ghash g) in
+      let e := option_map (entry_from_table real) (tfind (s_tbl st) (ghash g)) in
       match probe e remaining alpha beta with
       | Some s => (Done s, st)
       | None =>
@@ -209,7 +209,7 @@ Section AB.
                   | Done l =>
                       let flag := if l_bscore l <=? alpha then UpperBound
                                   else if beta <=? l_bscore l then LowerBound else Exact in
-                      let ne := mkEntry (l_bscore l) (l_best l) remaining flag in
+                      let ne := mkEntry (score_to_table (l_bscore l) real) (l_best l) remaining flag in
                       let st' := l_st l in
                       (Done (l_alpha l), with_tbl st' (store_node (s_tbl st') (ghash g) ne))
                   | Aborted sa => (Aborted sa, sa)
@@ -731,7 +731,7 @@ Section ABProofs.
         | Done l =>
             (Done (l_alpha l),
              with_tbl (l_st l) (store_node (s_tbl (l_st l)) (ghash g)
-               (mkEntry (l_bscore l) (l_best l) (Z.of_nat (S (S n)))
+               (mkEntry (score_to_table (l_bscore l) real) (l_best l) (Z.of_nat (S (S n)))
                   (if l_bscore l <=? alpha then UpperBound
                    else if beta <=? l_bscore l then LowerBound else Exact))))
         | Aborted sa => (Aborted sa, sa)
